@@ -402,7 +402,8 @@ def print_kauri_tree(kauri_tree, feature_names=None):
     check_is_fitted(kauri_tree)
     if feature_names is not None:
         used_features = [x for x in kauri_tree.tree_.features if x is not None]
-        if len(feature_names) < len(np.unique(used_features)):
+        # Every used feature index must have a name, whatever the number of distinct features used
+        if len(used_features) > 0 and len(feature_names) <= max(used_features):
             raise ValueError("Fewer feature names than used features by the tree were provided")
 
     def print_node(node_id):
